@@ -607,6 +607,8 @@ pub struct LogFacts {
     pub max_in_flight: usize,
     pub out_of_order: usize,
     pub err_overtook_results: bool,
+    /// largest number of work() calls running at the same time
+    pub max_work_overlap: usize,
     /// the reader failed while earlier sets were filled but not yet received by the consumer
     pub err_with_sets_in_flight: bool,
     pub tags_created: usize,
@@ -641,6 +643,7 @@ pub fn check_mock(sc: &Scenario, res: &MockResult, entries: &[Entry], findings: 
     let mut err_recv_seen = false;
     let mut work_end_after_err = false;
     let mut err_with_sets_in_flight = false;
+    let mut max_work_overlap: i64 = 0;
     for e in entries {
         match &e.ev {
             Ev::Point(p) => {
@@ -686,6 +689,7 @@ pub fn check_mock(sc: &Scenario, res: &MockResult, entries: &[Entry], findings: 
             }
             Ev::WorkStart(t, _) => {
                 work_open += 1;
+                max_work_overlap = max_work_overlap.max(work_open);
                 if !created.contains(t) {
                     f("C16", "unknown-data-set", format!("work got data set {} that was never created", t));
                 }
@@ -845,6 +849,7 @@ pub fn check_mock(sc: &Scenario, res: &MockResult, entries: &[Entry], findings: 
         out_of_order,
         err_overtook_results: err_recv_seen && work_end_after_err,
         err_with_sets_in_flight,
+        max_work_overlap: max_work_overlap.max(0) as usize,
         tags_created: created.len(),
         reuse_max: reuse.values().copied().max().unwrap_or(0),
         n_events: entries.len(),
